@@ -30,7 +30,10 @@ mutual
     | .tdelta _ => true
     | .cdelta _ => true
     | .fdt _ => true
+    | .ftd _ => true
     | .nat => true
+    | .index _ => true
+    | .sub _ xs => EVal.sizedList xs
     | .list xs => EVal.sizedList xs
     | .tuple xs => EVal.sizedList xs
     | .dict _ kvs => EVal.sizedKVs kvs
@@ -62,7 +65,11 @@ mutual
     | .tdelta _, _ => rfl
     | .cdelta _, _ => rfl
     | .fdt _, _ => rfl
+    | .ftd _, _ => rfl
     | .nat, _ => rfl
+    | .index _, _ => rfl
+    | .sub _ xs, h => by
+        simp only [EVal.norm, EVal.sized] at h ⊢; exact normList_sized xs h
     | .list xs, h => by
         simp only [EVal.norm, EVal.sized] at h ⊢; exact normList_sized xs h
     | .tuple xs, h => by
@@ -235,6 +242,17 @@ mutual
     | .tdelta _, b, _, _ => by cases b <;> simp [eqNR, eqN]
     | .cdelta _, b, _, _ => by cases b <;> simp [eqNR, eqN]
     | .fdt _, b, _, _ => by cases b <;> simp [eqNR, eqN]
+    | .ftd _, b, _, _ => by cases b <;> simp [eqNR, eqN]
+    | .index _, b, _, _ => by cases b <;> simp [eqNR, eqN]
+    | .sub c xs, b, ha, hb => by
+        cases b <;> try (simp [eqNR, eqN]; done)
+        rename_i d ys
+        simp only [EVal.sized] at ha hb
+        simp only [eqNR, eqN, zipR_eq xs ys ha hb, seqBranch_eq]
+        by_cases hcd : c = d
+        · simp [hcd]
+        · have : (c == d) = false := by simpa using hcd
+          simp [hcd, this]
     | .nat, b, _, _ => by cases b <;> simp [eqNR, eqN]
     | .list xs, b, ha, hb => by
         cases b <;> try (simp [eqNR, eqN]; done)
@@ -377,6 +395,16 @@ mutual
     | .tdelta _, b => by cases b <;> (simp only [eqNR]; exact ⟨_, rfl⟩)
     | .cdelta _, b => by cases b <;> (simp only [eqNR]; exact ⟨_, rfl⟩)
     | .fdt _, b => by cases b <;> (simp only [eqNR]; exact ⟨_, rfl⟩)
+    | .ftd _, b => by cases b <;> (simp only [eqNR]; exact ⟨_, rfl⟩)
+    | .index _, b => by cases b <;> (simp only [eqNR]; exact ⟨_, rfl⟩)
+    | .sub c xs, b => by
+        cases b <;> try (simp only [eqNR]; exact ⟨_, rfl⟩; done)
+        rename_i d ys
+        obtain ⟨bs, hz, hl⟩ := zipR_total xs ys
+        simp only [eqNR, hz]
+        by_cases hcd : c = d
+        · rw [if_neg (by simpa using hcd)]; exact seqBranch_total _ _ bs hl
+        · rw [if_pos (by simpa using hcd)]; exact ⟨_, rfl⟩
     | .nat, b => by cases b <;> (simp only [eqNR]; exact ⟨_, rfl⟩)
     | .list xs, b => by
         cases b <;> try (simp only [eqNR]; exact ⟨_, rfl⟩; done)
